@@ -736,6 +736,9 @@ pub fn generate(seed: u64, tier: &str) -> Vec<Value> {
             url["q"] = json!(q);
             url["qText"] = json!("-");
         }
+        if r.chance(1, 4) {
+            url["frag"] = json!(true);
+        }
         let nh = r.below(4);
         let mut headers: Vec<Value> = Vec::new();
         for _ in 0..nh {
